@@ -1,6 +1,136 @@
-import Gp.Model.ReasmPool
-/- C11 (reassembly half) — work in progress -/
+import Gp.Lemmas.ReasmLimit
+/-
+  C11 (reassembly half) — Assembler stream lifecycle and buffering are bounded and leak-free.
+
+  Model: `Gp/Model/ReasmPool.lean` (StreamPool keyed by flow, connections with two half connections, the
+  scripted factory/stream answers, AssembleWithContext / FlushWithOptions / FlushAll), on top of the
+  half-connection model of C09.  `run A st ops` executes a history of `Op`s on the pool and collects the
+  callbacks (`Ev`).  All theorems hold for EVERY history and every input (segments need not be consistent
+  with anything) and for any sequence arithmetic `A`; they are stated for runs that return normally
+  (a Go panic aborts the history).  The model is of the tree with fixes reasm-5/6 (pages kept by KeepFrom
+  are released at close and counted) — on the unfixed tree `flushall_empties` fails (monitor
+  `reasm:flushall-pages-used`).
+-/
 namespace Gp.C11.Reasm
 open Gp Gp.Reasm
+
+/-- **pages_accounting.**  After every history: the page-cache counter (`pageCache.used`) is exactly the number
+    of pages held by the connections of the pool — queued for out-of-order data or kept on request of a stream;
+    every per-connection counter `half.pages` is exact; a closed half connection holds no page. -/
+theorem pages_accounting (A : Arith) (ops : List Op) (st : St) (evs : List Ev)
+    (h : run A {} ops = .ok (st, evs)) :
+    st.used = sumHeld st.conns ∧
+    (∀ c ∈ st.conns, c.c2s.pages = held c.c2s ∧ c.s2c.pages = held c.s2c ∧
+      (c.c2s.closed = true → held c.c2s = 0) ∧ (c.s2c.closed = true → held c.s2c = 0)) := by
+  have hinv := run_inv A ops {} st evs inv_init_pool h
+  exact ⟨hinv.used, fun c hc => ⟨(hinv.ok c hc).1.1, (hinv.ok c hc).2.1, (hinv.ok c hc).1.2, (hinv.ok c hc).2.2⟩⟩
+
+/-- **flushall_empties** (buffers).  After any history followed by FlushAll: every connection still in the pool has
+    both directions closed, and no page is in use. -/
+theorem flushall_empties (A : Arith) (ops : List Op) (keep : KeepRule) (cmpl : CmplRule) (st : St) (evs : List Ev)
+    (h : run A {} (ops ++ [.flushAll keep cmpl]) = .ok (st, evs)) :
+    st.used = 0 ∧ (∀ c ∈ st.conns, c.c2s.closed = true ∧ c.s2c.closed = true) ∧
+    queuedPages st = 0 := by
+  obtain ⟨st1, evs1, rp, h1, h2, rfl, _⟩ := run_snoc A ops _ {} st evs h
+  have hinv1 := run_inv A ops {} st1 evs1 inv_init_pool h1
+  obtain ⟨hinv, hcl⟩ := opFlushAll_inv A st1 keep cmpl rp hinv1 h2
+  have hzero : ∀ l : List Conn, (∀ c ∈ l, ConnOK c ∧ c.c2s.closed = true ∧ c.s2c.closed = true) → sumHeld l = 0 := by
+    intro l
+    induction l with
+    | nil => intro _; rfl
+    | cons c rest ih =>
+      intro hl
+      have hc := hl c (List.mem_cons_self ..)
+      have := connOK_closed_held hc.1 hc.2.1 hc.2.2
+      have := ih (fun x hx => hl x (List.mem_cons_of_mem _ hx))
+      simp only [sumHeld, List.map_cons, List.sum_cons] at *
+      omega
+  refine ⟨?_, hcl, ?_⟩
+  · rw [hinv.used]
+    exact hzero _ (fun c hc => ⟨hinv.ok c hc, hcl c hc⟩)
+  · unfold queuedPages
+    have : ∀ l : List Conn, (∀ c ∈ l, c.c2s.closed = true ∧ c.s2c.closed = true) →
+        (l.map (fun c => (if c.c2s.closed then 0 else c.c2s.queue.length) +
+                          (if c.s2c.closed then 0 else c.s2c.queue.length))).sum = 0 := by
+      intro l
+      induction l with
+      | nil => intro _; rfl
+      | cons c rest ih =>
+        intro hl
+        have hc := hl c (List.mem_cons_self ..)
+        simp only [List.map_cons, List.sum_cons, hc.1, hc.2, if_true, Nat.zero_add]
+        exact ih (fun x hx => hl x (List.mem_cons_of_mem _ hx))
+    exact this _ hcl
+
+/-! ### the page limit -/
+
+/-- number of pages a packet of `n` payload bytes occupies -/
+def pagesOf (n : Nat) : Nat := (n + pageBytes - 1) / pageBytes
+
+/-- Full statement of the property's bound: with MaxBufferedPagesPerConnection = L configured before any packet,
+    after every Assemble step no half connection queues more than `L + pages(packet)` pages. -/
+def isOpts : Op → Bool
+  | .opts _ _ => true
+  | _ => false
+
+def limit_bound_full : Prop :=
+  ∀ (L : Nat), 0 < L → ∀ (ops : List Op), (ops.all (fun op => !isOpts op) = true) →
+  ∀ (st : St) (evs : List Ev), run Arith.real { cfg := { maxPer := L } } ops = .ok (st, evs) →
+  ∀ id dir p acc keep cmpl rp, step Arith.real st (.seg id dir p acc keep cmpl) = .ok rp →
+  ∀ c ∈ rp.st.conns, c.c2s.queue.length ≤ L + pagesOf p.bytes.length ∧ c.s2c.queue.length ≤ L + pagesOf p.bytes.length
+
+def cxSeg (seq : Int) (n : Nat) : Op :=
+  .seg 1 false { seq := seq, syn := false, fin := false, rst := false, bytes := List.replicate n 0, ts := 1 } 1 .none .yes
+
+/-- L = 5: SYN, four one-byte segments with gaps (4 pages queued), then two-page segments with gaps: each insert
+    releases ONE page and adds two -/
+def cxOps : List Op :=
+  [ .seg 1 false { seq := 1000, syn := true, fin := false, rst := false, bytes := [], ts := 1 } 1 .none .yes,
+    cxSeg 1010 1, cxSeg 1020 1, cxSeg 1030 1, cxSeg 1040 1,
+    cxSeg 5000 1901, cxSeg 10000 1901, cxSeg 15000 1901 ]
+
+set_option maxRecDepth 100000 in
+/-- **The real code violates the bound** (the model reproduces it; known finding `reasm:limit:*:multipage`):
+    with L = 5 the queue reaches 8 pages while the packet being processed has 2. -/
+theorem limit_bound_counterexample : ¬ limit_bound_full := by
+  intro hfull
+  have hcomp : (match run Arith.real { cfg := { maxPer := 5 } } cxOps with
+      | .ok (st, _) =>
+        (match step Arith.real st (cxSeg 20000 1901) with
+          | .ok rp => rp.st.conns.any (fun c => decide (5 + pagesOf 1901 < c.c2s.queue.length))
+          | _ => false)
+      | _ => false) = true := by decide +kernel
+  split at hcomp
+  · rename_i st evs h1
+    split at hcomp
+    · rename_i rp h2
+      obtain ⟨c, hc, hbad⟩ := List.any_eq_true.mp hcomp
+      have := hfull 5 (by decide) cxOps (by decide) st evs h1 1 false _ 1 .none .yes rp h2 c hc
+      simp only [List.length_replicate] at this
+      have hbad' : 5 + pagesOf 1901 < c.c2s.queue.length := by simpa using hbad
+      omega
+    · cases hcomp
+  · cases hcomp
+
+/-- **Proved part of the bound**: with MaxBufferedPagesPerConnection = L > 0 fixed and packets of at most one page
+    (1900 bytes), after EVERY history (any interleaving of Assemble / Flush / FlushAll over any number of
+    connections, any stream answers) no half connection queues more than L pages.
+    Missing for the full statement: multi-page packets — reaching the limit releases a single page (plus what
+    follows it contiguously) per inserted packet. -/
+theorem limit_bound_partial (A : Arith) (L : Nat) (hL : 0 < L) (T : Int) (ops : List Op)
+    (hsmall : ∀ op ∈ ops, op.small) (st : St) (evs : List Ev)
+    (h : run A { cfg := { maxPer := L, maxTotal := T } } ops = .ok (st, evs)) :
+    ∀ c ∈ st.conns, c.c2s.queue.length ≤ L ∧ c.s2c.queue.length ≤ L := by
+  have hinv0 : PoolInv { cfg := { maxPer := L, maxTotal := T } } :=
+    { ids := List.Pairwise.nil, ok := by simp, used := by simp [sumHeld] }
+  exact run_qinv A L hL ops _ st evs hinv0 (by intro c hc; simp at hc) rfl hsmall h
+
+example : (∀ op ∈ [cxSeg 1010 1, Op.flush 5 0 .none .yes, Op.flushAll .none .yes], op.small) := by
+  intro op hop
+  simp only [List.mem_cons, List.mem_nil_iff, or_false] at hop
+  rcases hop with rfl | rfl | rfl
+  · show (List.replicate 1 (0 : UInt8)).length ≤ pageBytes; decide
+  · trivial
+  · trivial
 
 end Gp.C11.Reasm
